@@ -33,11 +33,11 @@ CHECKS = {
                 note='Unbounded liveness is not decidable by finite runs and is not claimed; progress clauses are bounded by one events_run call. EINTR is injected only into polls that would block.'),
     'C06': dict(level='exploration', ref='4/C06',
                 technique='runtime monitoring: byte-exact stream oracle at the syscall boundary (interposed recv/send/connect/getsockopt/accept/socket/close/poll/clock) with exactly-once counters, ASan+UBSan, real and pass-through pool',
-                text='80,000 (quick) / 1.6M (thorough) scenarios on the simulated kernel plus a real-kernel soak (640 / 9,600 socketpair cases with a forked scripted peer; timing-independent rules only): back-to-back read or write requests on one descriptor with scripted kernel answers (partial lengths, EAGAIN, EINTR, spurious readiness, EOF/errors at random offsets, stalls, cancellation at random steps), simultaneous read+write, connects over lists of 0..5 addresses from 7 behaviours with/without per-address timeout (timing checked in virtual time), accepts with scripted soft/hard errors. The end of an inbound stream is signalled by poll as POLLIN, as POLLHUP/POLLERR alone, or both; the caller\'s connect timeout struct is overwritten as soon as the call returns; 300,000 loop passes (or 10^6 polls) without completion or virtual time advancing are a violation (busy loop); descriptor 0 is an ordinary descriptor (free in one case of four, so that connected / accepted sockets get it).',
+                text='80,000 (quick) / 1.6M (thorough) scenarios on the simulated kernel plus a real-kernel soak (640 / 9,600 socketpair cases with a forked scripted peer; timing-independent rules only): back-to-back read or write requests on one descriptor with scripted kernel answers (partial lengths, EAGAIN, EINTR, spurious readiness, EOF/errors at random offsets, stalls, cancellation at random steps), simultaneous read+write, connects over lists of 0..5 addresses from 7 behaviours with/without per-address timeout (timing checked in virtual time), accepts with scripted soft/hard errors. The end of an inbound stream is signalled by poll as POLLIN, as POLLHUP/POLLERR alone, or both; the caller\'s connect timeout struct is overwritten as soon as the call returns; 300,000 loop passes (or 10^6 polls) without completion or virtual time advancing are a violation (busy loop); descriptor 0 is an ordinary descriptor (free in one case of four, so that connected / accepted sockets get it); duplicate requests on a busy descriptor must be refused; one timeout in eight is exactly zero; a third build is the MSG_NOSIGNAL work-around (-DPOSIXFAIL_MSG_NOSIGNAL, signal() interposed and clobbering errno); every driver process ends with requests made from an exit handler that runs after the library\'s own clean-up.',
                 note='Kernel simulated for the main workload (the soak uses the real one); EAGAIN == EWOULDBLOCK on Linux; connect completions are generated >= 3 ms away from the timeout (ties not generated).'),
     'C07': dict(level='exploration', ref='4/C07',
                 technique='runtime monitoring: every byte visible through netbuf_read_peek compared with the peer\'s keyed stream, every byte accepted by the interposed send compared with the concatenation of the writes; exactly-once callbacks; ASan+UBSan',
-                text='16,000 (quick) / 300,000 (thorough) simulated-kernel histories (plus a real-kernel soak of 640 / 9,600 socketpair cases) of wait(k)/peek/consume(j)/cancel (consume also while a wait is outstanding on the network; impossible sizes up to SIZE_MAX must be refused) with k from 1 to 20000 (growth and compaction of the 4096-byte buffer) and of reserve/consume/write with sizes 0..50000, crossed with segmentations, EAGAIN/EINTR patterns, EOF and failure offsets (incl. early ones that hit small uncoalesced buffers); one case in eight puts a reader and a writer on one descriptor and tears one of them down while the other has an operation outstanding.',
+                text='16,000 (quick) / 300,000 (thorough) simulated-kernel histories (plus a real-kernel soak of 640 / 9,600 socketpair cases) of wait(k)/peek/consume(j)/cancel (consume also while a wait is outstanding on the network; impossible sizes up to SIZE_MAX must be refused) with k from 1 to 20000 (growth and compaction of the 4096-byte buffer) and of reserve/consume/write with sizes 0..50000, crossed with segmentations, EAGAIN/EINTR patterns, EOF and failure offsets (incl. early ones that hit small uncoalesced buffers); one case in eight puts a reader and a writer on one descriptor and tears one of them down while the other has an operation outstanding; one case in three runs over the function-pointer (TLS) transport; a reader is used again after EOF for the bytes still buffered; a third build is the MSG_NOSIGNAL work-around.',
                 note='Kernel simulated. After EOF/error is reported the reader is not used further.'),
     'C08': dict(level='exploration', ref='4/C08',
                 technique='runtime monitoring: ASan/UBSan + abort/assert/signal detection + callback counter + range checks on struct http_response made while reading every header string and body byte + live-block count of a tracking allocator + pending-after-close detector, over structured mutations of generated responses on the simulated kernel',
